@@ -4,6 +4,7 @@
 #include <Bpp/Text/TextTools.h>
 #include <Bpp/Io/FileTools.h>
 #include <Bpp/Exceptions.h>
+#include <Bpp/Text/KeyvalTools.h>
 #include <string>
 #include <vector>
 using namespace bpp;
@@ -27,5 +28,7 @@ ul k_count(const char* b, ul n, const char* p, ul np) { std::string s(b, n), pat
 int k_startsEndsHas(const char* b, ul n, const char* p, ul np, int which) { std::string s(b, n), pat(p, np); try { return (which == 0 ? TextTools::startsWith(s, pat) : which == 1 ? TextTools::endsWith(s, pat) : TextTools::hasSubstring(s, pat)) ? 1 : 0; } catch (bpp::Exception&) { return -1; } }
 ul k_path(const char* b, ul n, char sep, int which, char* out, ul cap) { std::string s(b, n); LIBTRY return put(which == 0 ? FileTools::getFileName(s, sep) : which == 1 ? FileTools::getParent(s, sep) : FileTools::getExtension(s), out, cap); LIBCATCH }
 int k_toInt(const char* b, ul n, char sci, int* ok) { std::string s(b, n); *ok = 0; try { int v = TextTools::toInt(s, sci); *ok = 1; return v; } catch (bpp::Exception&) { return 0; } }
+// single key-value splitting at the first occurrence of a one-character separator: returns 1 and copies key / value, or 0 when the library raises its exception
+int k_singleKeyval(const char* b, ul n, char split, char* key, ul* nkey, char* val, ul* nval, ul cap) { std::string s(b, n), sp(1, split), k, v; try { KeyvalTools::singleKeyval(s, k, v, sp); *nkey = put(k, key, cap); *nval = put(v, val, cap); return 1; } catch (bpp::Exception&) { return 0; } }
 double k_toDouble(const char* b, ul n, char dec, char sci, int* ok) { std::string s(b, n); *ok = 0; try { double v = TextTools::toDouble(s, dec, sci); *ok = 1; return v; } catch (bpp::Exception&) { return 0; } }
 }
